@@ -16,7 +16,7 @@ Hypotheses that appear:
   count, C against the allocated length; an empty sub-shell has the count 0 and a one-element dummy, and is never read);
 * `haw : … = .ok v → 0 < T.AtomicWeight_arr Z` — Java reads `AtomicWeight_arr[Z]` raw where C calls `AtomicWeight` (fails on `≤ 0`): the two
   differ exactly when a cross section exists for an element without atomic weight — excluded, reported as a latent difference;
-* `hq`, `hEq`, `h92` — the excluding hypotheses of the witnesses W1, W2, W5 of notes/C19M_REPORT.md.
+* `hEq`, `h92` — the excluding hypotheses of the witnesses W2, W5 of notes/C19M_REPORT.md (W1, shells 28..30 of `CSb_Photo_Partial`, is repaired in /repo da7215f: no hypothesis left).
 Full statements that are false are kept as `def …_full : Prop` with the negation proved on a concrete table.
 -/
 set_option linter.unusedSimpArgs false
@@ -350,8 +350,7 @@ include hZ hm hs
 
 theorem java_eq_c_CSb_Photo_Partial (hN : inI32 (T.NE_Photo_Partial_Kissel Z.toNat m.toNat))
     (hlenE : ¬ T.Electron_Config_Kissel Z.toNat m.toNat < 1.0e-6 → (T.E_Photo_Partial_Kissel Z.toNat m.toNat).len = T.NE_Photo_Partial_Kissel Z.toNat m.toNat)
-    (hlenP : ¬ T.Electron_Config_Kissel Z.toNat m.toNat < 1.0e-6 → (T.Photo_Partial_Kissel Z.toNat m.toNat).len = T.NE_Photo_Partial_Kissel Z.toNat m.toNat)
-    (hq : m < 28 ∨ T.Electron_Config_Kissel Z.toNat m.toNat < 1.0e-6) :
+    (hlenP : ¬ T.Electron_Config_Kissel Z.toNat m.toNat < 1.0e-6 → (T.Photo_Partial_Kissel Z.toNat m.toNat).len = T.NE_Photo_Partial_Kissel Z.toNat m.toNat) :
     JRel (JGen.CSb_Photo_Partial (JTables.ofC T) Z m E) (Gen.CSb_Photo_Partial T Z m E s) s := by
   jeq_start JGen.CSb_Photo_Partial Gen.CSb_Photo_Partial
   by_cases hz : Z < 1 ∨ Z > 120
@@ -361,16 +360,14 @@ theorem java_eq_c_CSb_Photo_Partial (hN : inI32 (T.NE_Photo_Partial_Kissel Z.toN
   by_cases hE : E ≤ 0
   · jeq_auto
   simp (disch := omega) only [jrd_dynK]
+  by_cases hm28' : m ≥ 28
+  · jeq_auto
+  have hm28 : m < 28 := by omega
   jeq_simp
   by_cases hcfg : T.Electron_Config_Kissel Z.toNat m.toNat < 10e-7
   · jeq_auto
   have hlenE := hlenE hcfg
   have hlenP := hlenP hcfg
-  have hm28 : m < 28 := by
-    rcases hq with h | h
-    · exact h
-    · exact absurd h hcfg
-  have hm28' : ¬ (m ≥ 28) := by omega
   jeq_simp
   by_cases hedge : T.EdgeEnergy_arr Z.toNat m.toNat ≤ 0
   · jeq_auto
@@ -405,15 +402,14 @@ theorem java_pos_CSb_Photo_Partial : JPos (JGen.CSb_Photo_Partial (JTables.ofC T
 
 theorem java_eq_c_CS_Photo_Partial (hN : inI32 (T.NE_Photo_Partial_Kissel Z.toNat m.toNat))
     (hlenE : ¬ T.Electron_Config_Kissel Z.toNat m.toNat < 1.0e-6 → (T.E_Photo_Partial_Kissel Z.toNat m.toNat).len = T.NE_Photo_Partial_Kissel Z.toNat m.toNat)
-    (hlenP : ¬ T.Electron_Config_Kissel Z.toNat m.toNat < 1.0e-6 → (T.Photo_Partial_Kissel Z.toNat m.toNat).len = T.NE_Photo_Partial_Kissel Z.toNat m.toNat)
-    (hq : m < 28 ∨ T.Electron_Config_Kissel Z.toNat m.toNat < 1.0e-6) :
+    (hlenP : ¬ T.Electron_Config_Kissel Z.toNat m.toNat < 1.0e-6 → (T.Photo_Partial_Kissel Z.toNat m.toNat).len = T.NE_Photo_Partial_Kissel Z.toNat m.toNat) :
     JRel (JGen.CS_Photo_Partial (JTables.ofC T) Z m E) (Gen.CS_Photo_Partial T Z m E s) s := by
   by_cases hz : Z < 1 ∨ Z > 120
   · jeq_start JGen.CS_Photo_Partial Gen.CS_Photo_Partial JGen.CSb_Photo_Partial Gen.CSb_Photo_Partial; jeq_auto
   by_cases hsh : m < 0 ∨ m ≥ 31
   · jeq_start JGen.CS_Photo_Partial Gen.CS_Photo_Partial JGen.CSb_Photo_Partial Gen.CSb_Photo_Partial; jeq_auto
   jeq_start JGen.CS_Photo_Partial Gen.CS_Photo_Partial
-  jeq_use_pos (java_eq_c_CSb_Photo_Partial T Z m hZ hm E s hs hN hlenE hlenP hq), (java_pos_CSb_Photo_Partial T Z m hZ hm E)
+  jeq_use_pos (java_eq_c_CSb_Photo_Partial T Z m hZ hm E s hs hN hlenE hlenP), (java_pos_CSb_Photo_Partial T Z m hZ hm E)
   jeq_auto
 end kissel
 
@@ -527,18 +523,21 @@ include hZ hm
 
 /-- what a value of the Java `CSb_Photo_Partial` tells about its arguments -/
 theorem java_ok_CSb_Photo_Partial {v : ℝ} (h : JGen.CSb_Photo_Partial (JTables.ofC T) Z m E = .ok v) :
-    ¬(Z < 1 ∨ Z > 120) ∧ ¬(m < 0 ∨ m ≥ 31) ∧ ¬ (T.Electron_Config_Kissel Z.toNat m.toNat < 1.0e-6) := by
+    ¬(Z < 1 ∨ Z > 120) ∧ ¬(m < 0 ∨ m ≥ 31) ∧ ¬ (T.Electron_Config_Kissel Z.toNat m.toNat < 1.0e-6) ∧ m < 28 := by
   unfold JGen.CSb_Photo_Partial at h
   jeq_normJ
   by_cases hz : Z < 1 ∨ Z > 120
   · simp only [hz, ↓reduceIte, jthrow_eq_error] at h; cases h
   by_cases hsh : m < 0 ∨ m ≥ 31
   · simp only [hz, hsh, ↓reduceIte, jthrow_eq_error] at h; cases h
-  refine ⟨hz, hsh, ?_⟩
-  intro hc
   by_cases hE : E ≤ 0.0
   · simp only [hz, hsh, hE, ↓reduceIte, jthrow_eq_error] at h; cases h
   simp only [hz, hsh, hE, ↓reduceIte] at h
+  by_cases h28 : m ≥ 28
+  · rw [@if_pos (m ≥ 28) ((JTables.ofC T).SHELLNUM.decLe m) h28, jpure_eq_ok, jbind_ok, if_pos rfl, jpure_eq_ok, jbind_ok, if_pos rfl] at h; cases h
+  refine ⟨hz, hsh, ?_, by omega⟩
+  intro hc
+  rw [@if_neg (m ≥ 28) ((JTables.ofC T).SHELLNUM.decLe m) h28] at h
   have e1 : wrapI (wrapI (Z * 31) + m) = Z * 31 + m := by rw [wrapI_eq (x := Z * 31) (by omega) (by omega), wrapI_eq (by omega) (by omega)]
   rw [e1, jrd_flat2 _ _ _ _ _ _ _ (by omega) (by omega) (by omega) (by omega) (by omega)] at h
   rw [jbind_ok] at h
@@ -552,7 +551,7 @@ theorem java_nz_CS_Photo_Partial {v : ℝ} (h : JGen.CS_Photo_Partial (JTables.o
   unfold JGen.CS_Photo_Partial at h
   rcases hj : JGen.CSb_Photo_Partial (JTables.ofC T) Z m E with e | r
   · rw [hj] at h; cases h
-  · obtain ⟨hz, hsh, hc⟩ := java_ok_CSb_Photo_Partial T Z m hZ hm E hj
+  · obtain ⟨hz, hsh, hc, _⟩ := java_ok_CSb_Photo_Partial T Z m hZ hm E hj
     have hr := java_pos_CSb_Photo_Partial T Z m hZ hm E r hj
     rw [hj] at h
     jeq_normJ
@@ -655,7 +654,7 @@ include hZ hs
 
 /-- use the theorem of `CS_Photo_Partial` for sub-shell `k` (< 28) inside a cascade helper -/
 macro "jeq_use_partial" k:num "," hk:ident : tactic =>
-  `(tactic| (rcases (JRel.cases (java_eq_c_CS_Photo_Partial T Z $k hZ (by decide) E s hs ($hk).1 ($hk).2.1 ($hk).2.2 (Or.inl (by decide))))
+  `(tactic| (rcases (JRel.cases (java_eq_c_CS_Photo_Partial T Z $k hZ (by decide) E s hs ($hk).1 ($hk).2.1 ($hk).2.2))
       with ⟨v, hc, hj⟩ | ⟨e, hc, hj⟩ | ⟨a, b, hc, hj⟩ | ⟨a, hc⟩ <;>
       [(have hne := java_nz_CS_Photo_Partial T Z $k hZ (by decide) E hj; have hrng := java_rng_CS_Photo_Partial T Z $k hZ (by decide) E hj); (jeq_auto; done); (jeq_auto; done); (jeq_auto; done)]))
 
